@@ -583,7 +583,7 @@ class C01(ScanProperty):
                                     'C01_skip_one_character', 'C01_lang_equiv_from_certificate', 'C01_find_equals_specification',
                                     'C01_specification_is_maximal_candidate', 'C01_simple_builder_types', 'C01_nonvacuous']),
                 ('Properties.C01c', ['C01_compiled_mode_finds_specified_token', 'C01_compiled_scanner_is_specification',
-                                     'C01_terminal_ids_are_pattern_order', 'C01_capstone_nonvacuous', 'C01_capstone_check_sound'])]
+                                     'C01_terminal_ids_are_pattern_order', 'C01_capstone_nonvacuous', 'C01_capstone_check_sound', 'C01_built_mode_ok'])]
     COQ_TARGETS = ['Properties/C01.vo', 'Properties/C01c.vo']
     CERTS = {'quick': 40, 'thorough': 600}
 
